@@ -58,6 +58,20 @@ type Spec struct {
 	AltCreds  bool     `json:"alt_creds"` // this proxy is configured with the OTHER credentials (two proxies in one process)
 	// the proxy is configured with a user name and an EMPTY password: 1 = `--basic-auth user` (url.User), 2 = `user:`
 	EmptyPass int `json:"empty_pass"`
+	// long configured credentials: lengths of user name and password (0 = the default ones)
+	LongUser int `json:"long_user"`
+	LongPass int `json:"long_pass"`
+}
+
+// longString is a deterministic string of n bytes without ':' whose bytes differ between neighbouring
+// positions and between 256-byte blocks.
+func longString(seed byte, n int) string {
+	const al = "abcdefghijklmnopqrstuvwxyzABCDEFGHIJKLMNOPQRSTUVWXYZ0123456789-_.~"
+	bs := make([]byte, n)
+	for i := range bs {
+		bs[i] = al[(int(seed)+i*7+i/256*13)%len(al)]
+	}
+	return string(bs)
 }
 
 const (
@@ -66,6 +80,16 @@ const (
 )
 
 func (s Spec) creds() (string, string) {
+	if s.LongUser != 0 || s.LongPass != 0 {
+		u, p := authUser, authPass
+		if s.LongUser != 0 {
+			u = longString(3, s.LongUser)
+		}
+		if s.LongPass != 0 {
+			p = longString(11, s.LongPass)
+		}
+		return u, p
+	}
 	if s.EmptyPass != 0 {
 		return authUser, ""
 	}
@@ -202,6 +226,9 @@ type credVariant struct {
 
 // credVariantsFor: the variants a configuration is driven with.
 func credVariantsFor(s Spec) []credVariant {
+	if s.LongUser != 0 || s.LongPass != 0 {
+		return longCredVariants(s.creds())
+	}
 	if s.EmptyPass == 0 {
 		return credVariants()
 	}
@@ -232,6 +259,71 @@ func credVariantsFor(s Spec) []credVariant {
 		{"value-upper", [][2]string{pa(strings.ToUpper("Basic " + b64(u+":")))}},
 		{"token-lower", [][2]string{pa("Basic " + strings.ToLower(b64(u+":")))}},
 	}
+}
+
+// longCredVariants: the right long credentials, and tokens of the same length that differ from them only near the
+// end / at the 256-byte block boundaries (401.. 4 KiB credentials are compared byte by byte like short ones)
+func longCredVariants(u, p string) []credVariant {
+	pa := func(user, pass string) [][2]string {
+		return [][2]string{{"Proxy-Authorization", "Basic " + b64(user+":"+pass)}}
+	}
+	flip := func(x string, idx ...int) string {
+		bs := []byte(x)
+		for _, i := range idx {
+			if i < 0 {
+				i += len(bs)
+			}
+			if i >= 0 && i < len(bs) {
+				if bs[i] == 'X' {
+					bs[i] = 'Y'
+				} else {
+					bs[i] = 'X'
+				}
+			}
+		}
+		return string(bs)
+	}
+	lastK := func(x string, k int) string {
+		var idx []int
+		for i := 1; i <= k && i <= len(x); i++ {
+			idx = append(idx, -i)
+		}
+		return flip(x, idx...)
+	}
+	vs := []credVariant{
+		{"absent", nil},
+		{"exact", pa(u, p)},
+		{"scheme-lower", [][2]string{{"Proxy-Authorization", "basic " + b64(u+":"+p)}}},
+		{"long-pass-last-byte", pa(u, flip(p, -1))},
+		{"long-pass-last-2", pa(u, lastK(p, 2))},
+		{"long-pass-tail-after-last-block", pa(u, lastK(p, len(p)%256))},
+		{"long-pass-last-255", pa(u, lastK(p, 255))},
+		{"long-pass-byte-256", pa(u, flip(p, 255))},
+		{"long-pass-byte-257", pa(u, flip(p, 256))},
+		{"long-pass-byte-512", pa(u, flip(p, 511))},
+		{"long-pass-byte-513", pa(u, flip(p, 512))},
+		{"long-pass-first-byte", pa(u, flip(p, 0))},
+		{"long-pass-truncated-to-256", pa(u, p[:min(256, len(p))])},
+		{"long-pass-one-shorter", pa(u, p[:len(p)-1])},
+		{"long-pass-one-longer", pa(u, p+"X")},
+		{"long-user-last-byte", pa(flip(u, -1), p)},
+		{"long-user-tail-after-last-block", pa(lastK(u, len(u)%256), p)},
+		{"long-user-byte-256", pa(flip(u, 255), p)},
+		{"long-user-byte-257", pa(flip(u, 256), p)},
+		{"long-user-first-byte", pa(flip(u, 0), p)},
+		{"long-user-one-shorter", pa(u[:len(u)-1], p)},
+		{"long-both-last-byte", pa(flip(u, -1), flip(p, -1))},
+		{"repeat-bad-good", append(pa(u, flip(p, -1)), pa(u, p)...)},
+	}
+	// variants that coincide with the right credentials (index out of range for short parts) are dropped
+	good := vs[1].lines[0][1]
+	out := vs[:3]
+	for _, v := range vs[3:] {
+		if v.tag == "repeat-bad-good" || v.lines[0][1] != good {
+			out = append(out, v)
+		}
+	}
+	return out
 }
 
 func credVariants() []credVariant {
@@ -542,6 +634,12 @@ func basicCases(r *rng.R, n int) ([]string, []any) {
 	for _, cv := range credVariantsFor(Spec{EmptyPass: 1}) {
 		emit(cv.lines, authUser, "")
 	}
+	for _, lp := range [][2]int{{5, 257}, {300, 8}, {257, 513}} {
+		u, p := longString(3, lp[0]), longString(11, lp[1])
+		for _, cv := range longCredVariants(u, p) {
+			emit(cv.lines, u, p)
+		}
+	}
 	for _, u := range []string{"user", "u", "a:b", ""} {
 		for _, payload := range []string{b64(u), b64(u + ":"), b64(":"), b64(""), b64(u + "::")} {
 			emit([][2]string{{"Proxy-Authorization", "Basic " + payload}}, u, "")
@@ -716,6 +814,7 @@ type Meta struct {
 	Shards        []string       `json:"shards"`
 	ShardSize     int            `json:"shard_size"`
 	ShardKinds    map[string]int `json:"shard_case_counts"`
+	ShardSizes    map[string]int `json:"shard_sizes"` // kinds whose shards are smaller than shard_size (long literals)
 	Configs       int            `json:"configs"`
 	Exchanges     int            `json:"exchanges"`
 	Sessions      int            `json:"sessions"`
@@ -774,6 +873,11 @@ func allSpecs(tier string) []Spec {
 	}
 	out = append(out, Spec{ID: id, Auth: true, EmptyPass: 1, MITM: true})
 	id++
+	// long configured credentials (not a multiple of 256 bytes; 4 KiB+): compared byte by byte to the end
+	for _, lp := range [][2]int{{0, 257}, {0, 300}, {300, 0}, {0, 511}, {0, 513}, {257, 1000}, {0, 4100}} {
+		out = append(out, Spec{ID: id, Auth: true, LongUser: lp[0], LongPass: lp[1], Upstream: lp[1] == 300})
+		id++
+	}
 	// degenerate time frames: an entry with an empty interval never matches; a list made only of such
 	// entries is still a configured list (it refuses everything), a mixed list behaves like its other entries
 	for _, tf := range [][]TF{{{1, 0, 0}}, {{2, 12, 12}, {6, 24, 24}}, {{2, 0, 0}, {2, 9, 17}}, {{2, 16, 16}, {2, 17, 17}}} {
@@ -812,6 +916,23 @@ func genRequests(r *rng.R, s Spec, aliases []string, budget int, originPort stri
 			}
 		}
 		return ReqSpec{Method: method, Host: host, Form: form, Version: version, Headers: cv.lines, CredTag: cv.tag, HostTag: hv.tag}
+	}
+	if s.LongUser != 0 || s.LongPass != 0 {
+		// (the literals are long: for the largest credentials only the variants that single out the tail and the
+		// block boundaries, and CONNECT for every third variant)
+		keep := map[string]bool{"exact": true, "long-pass-last-byte": true, "long-pass-tail-after-last-block": true,
+			"long-pass-byte-256": true, "long-pass-byte-257": true, "long-pass-one-shorter": true, "long-user-last-byte": true,
+			"long-user-tail-after-last-block": true, "long-both-last-byte": true}
+		for i, cv := range cvs {
+			if budget > 0 && s.LongPass >= 1000 && !keep[cv.tag] {
+				continue
+			}
+			out = append(out, mk("GET", hvs[0], "", cv, "absolute", "1.1"))
+			if i%3 == 1 || budget == 0 {
+				out = append(out, mk("CONNECT", hvs[0], ":443", cv, "authority", "1.1"))
+			}
+		}
+		return out
 	}
 	if s.RealDial {
 		// only spellings of the local machine, with the scripted origin's real port
@@ -890,7 +1011,7 @@ func main() {
 		panic(err)
 	}
 	r := rng.New(*seed)
-	m := Meta{ShardSize: 400, ShardKinds: map[string]int{}, ByStatus: map[string]int{}, ByMethod: map[string]int{},
+	m := Meta{ShardSize: 400, ShardKinds: map[string]int{}, ShardSizes: map[string]int{}, ByStatus: map[string]int{}, ByMethod: map[string]int{},
 		ByCred: map[string]int{}, ByHost: map[string]int{}, ByPos: map[string]int{}, InsideMITM: map[string]int{}}
 
 	// the hosts file the proxy reads (hostsfile.LocalhostAliases opens the Location variable of the
@@ -967,8 +1088,8 @@ func main() {
 			jobs = append(jobs, jb)
 		}
 	} else {
-		budget := 70
-		tfBudget := 12
+		budget := 60
+		tfBudget := 10
 		if *tier == "thorough" {
 			budget, tfBudget = 0, 120
 		}
@@ -1028,7 +1149,7 @@ func main() {
 					}
 					continue
 				}
-				if s.Auth && !s.RealDial {
+				if s.Auth && !s.RealDial && s.LongUser == 0 && s.LongPass == 0 {
 					// histories: an ACCEPTED request first, then wrong credentials — among them the right header value
 					// with its case folded — on the same connection, and each again on a connection of its own
 					cv := map[string]credVariant{}
@@ -1355,8 +1476,8 @@ func main() {
 		pre.WriteString(coqConfig(specByID[id], dl, aliases, idnaTable))
 		pre.WriteString("\n")
 	}
-	var xc []string
-	var xj []any
+	var xc, yc []string
+	var xj, yj []any
 	for i := range cases {
 		c := &cases[i]
 		raw := accessrig.RawReq{}
@@ -1370,24 +1491,38 @@ func main() {
 			m.Skipped++
 			continue
 		}
+		if c.Spec.LongUser != 0 || c.Spec.LongPass != 0 {
+			// long literals: shards of their own, fewer cases each, so that no single shard dominates the wall time
+			yc = append(yc, s)
+			yj = append(yj, c)
+			continue
+		}
 		xc = append(xc, s)
 		xj = append(xj, c)
 	}
 	m.Configs = len(ids)
 	emit := func(kind, preamble, typ, mf, pf string, cs []string, js []any) {
-		for i := 0; i*m.ShardSize < len(cs); i++ {
-			hi := (i + 1) * m.ShardSize
+		size := m.ShardSize
+		if n, ok := m.ShardSizes[kind]; ok {
+			size = n
+		}
+		for i := 0; i*size < len(cs); i++ {
+			hi := (i + 1) * size
 			if hi > len(cs) {
 				hi = len(cs)
 			}
 			name := fmt.Sprintf("%s_%03d.v", kind, i)
-			if err := writeShard(*outDir, name, preamble, typ, mf, pf, cs[i*m.ShardSize:hi]); err != nil {
+			if err := writeShard(*outDir, name, preamble, typ, mf, pf, cs[i*size:hi]); err != nil {
 				panic(err)
 			}
 			m.Shards = append(m.Shards, name)
 		}
 		m.ShardKinds[kind] = len(cs)
 		writeJSONL(*outDir, kind+".jsonl", js)
+	}
+	if len(yc) > 0 {
+		m.ShardSizes["ycases"] = 40
+		emit("ycases", pre.String(), "xcase", "xcase_model_ok", "xcase_prop_ok", yc, yj)
 	}
 	emit("xcases", pre.String(), "xcase", "xcase_model_ok", "xcase_prop_ok", xc, xj)
 	if *replay == "" {
